@@ -419,6 +419,16 @@ def encFail (s : St) (ans : Ans) (latch : Bool) : St :=
 def wantStorage (s : St) : Nat :=
   (2 * max (s.unprocessed % two32) (wsub64 s.inputPos s.lastFlushPos) + 527) % two64
 
+/-- `encode_data` after the magic block: prelude, then payload -/
+def encRest (m : St × Writer × Nat) (ans : Ans) (w0 : Writer) (bytes : Nat) (isLast forceFlush : Bool) : Out (St × Bool) :=
+  match encPrelude m.1 m.2.1 m.2.2 bytes with
+  | .panic => .panic
+  | .fuel => .fuel
+  | .ok (s2, w, hdr) => encPayload s2 ans w0 w hdr isLast forceFlush
+
+/-- the carry as a bit string: `storage[0..2] = last_bytes_`, `storage_ix = last_bytes_bits_` -/
+def St.carry (s : St) : Writer := bitsOf s.lastBytesBits s.lastBytes
+
 /-- `encode_data(is_last, force_flush)` from call site `site`; returns the state, the
 function result, and the request it issued -/
 def encodeData (o : Oracle) (s : St) (site : Nat) (isLast forceFlush : Bool) : Out (St × Bool × Req) :=
@@ -426,17 +436,10 @@ def encodeData (o : Oracle) (s : St) (site : Nat) (isLast forceFlush : Bool) : O
   else if s.unprocessed > s.blockSize then .ok (encFail s (o s.nEnc (reqOf s site isLast forceFlush)) isLast, false, reqOf s site isLast forceFlush)
   else if (growStorage (encStart s isLast) (wantStorage s)).storageSize < 2 then .panic
   else
-    match encPrelude (encMagic (growStorage (encStart s isLast) (wantStorage s)) (bitsOf s.lastBytesBits s.lastBytes)).1
-            (encMagic (growStorage (encStart s isLast) (wantStorage s)) (bitsOf s.lastBytesBits s.lastBytes)).2.1
-            (encMagic (growStorage (encStart s isLast) (wantStorage s)) (bitsOf s.lastBytesBits s.lastBytes)).2.2
-            (s.unprocessed % two32) with
+    match encRest (encMagic (growStorage (encStart s isLast) (wantStorage s)) s.carry) (o s.nEnc (reqOf s site isLast forceFlush)) s.carry (s.unprocessed % two32) isLast forceFlush with
     | .panic => .panic
     | .fuel => .fuel
-    | .ok (s2, w, hdr) =>
-      match encPayload s2 (o s.nEnc (reqOf s site isLast forceFlush)) (bitsOf s.lastBytesBits s.lastBytes) w hdr isLast forceFlush with
-      | .panic => .panic
-      | .fuel => .fuel
-      | .ok (s3, res) => .ok (s3, res, reqOf s site isLast forceFlush)
+    | .ok (s3, res) => .ok (s3, res, reqOf s site isLast forceFlush)
 
 /-! ### output side -/
 
